@@ -178,8 +178,9 @@ def run(ctx):
     ctx.base_trust([
         "C16 is SPEC+C: the insertion/flip, hole-joining and ear-clipping algorithms are not modelled; the Lean side is an exact certificate checker "
         "(lean/GeosModel/Model/Tri/Check.lean) proved sound w.r.t. the listed clauses; GEOS outputs are checked, not predicted",
-        "covering of the region follows from the edge-pairing (chain) certificate by winding-number additivity, which is NOT proved in Lean "
-        "(area equality and pairwise interior-disjointness are proved/checked exactly)",
+        "covering: proved for the Delaunay case for all points in general position (edge_pairing_area_cover); the closure step to points on the "
+        "finitely many edge lines, and for polygons with holes the fact 'winding number of the oriented boundary = indicator of the interior' "
+        "(hypothesis PolygonWindingIsIndicator of cdt_cover_partial) are NOT proved in Lean",
         "Voronoi: cell vertices are computed doubles; metric clauses carry a slack of 1e-9 x (largest ordinate magnitude) — PARTIAL",
         "inputs are restricted to the grid of the property (integers times one power of two, |ordinate| <= 2^25 units); polygons are valid by construction "
         "(GEOSisValid is used only as a safety net to skip generator mistakes)",
